@@ -144,7 +144,7 @@ fn gen_pattern(r: &mut Rng, depth: usize, nfree: usize, next_b: &mut Name, scope
     PT::Node { op: o.name, slots, kids }
 }
 
-const PAT_OPS: &[&str] = &["f", "g", "h", "k", "var", "c", "d", "u", "w", "app", "pair", "lam", "sum", "let", "idx", "bb", "ite", "sb"];
+const PAT_OPS: &[&str] = &["f", "g", "h", "k", "var", "c", "d", "u", "w", "app", "pair", "lam", "sum", "let", "idx", "bb", "ite", "sb", "bsl"];
 
 /// bottom-up instantiation of a pattern with a substitution using only lookup (no insertion)
 fn inst_by_lookup(eg: &EGraph<LSym>, pat: &Pattern<LSym>, subst: &Subst) -> Result<AppliedId, String> {
